@@ -56,6 +56,13 @@ def gen_cases(tier, seed):
     keys = H.root_keys(tier, list(H.REGIMES), dev=1 if tier == "quick" else 2)
     for k in keys:
         k["depth"] = 2 if tier == "quick" else 3
+    # larger aggregates (the shared root axis stops at 8 grains)
+    for fab in alph.FABRICS:
+        for reg in ("disl", "yield"):
+            for ng in (50,) if tier == "quick" else (50, 200, 1000):
+                keys.append(dict(part="hist", fab=fab, reg=reg, tex="random", vol="dominant", ng=ng, prm="default", depth=1 if ng >= 200 else 2))
+    if tier == "thorough":  # the banded-Jacobian path (n_grains > 4632), once
+        keys.append(dict(part="hist", fab="olA", reg="disl", tex="random", vol="uniform", ng=4700, prm="default", depth=1, banded=1))
     # regime supplied by a callable of (t, x): switching between accepted regimes mid-update
     for fab in alph.FABRICS:
         for gr in GETREG:
@@ -146,7 +153,9 @@ def run_case(key):
             res["notes"]["rejected_updates"] = res["notes"].get("rejected_updates", 0) + 1
             res["outcomes"].append("exc:" + type(e).__name__)
             if isinstance(e, H.UpdateTimeout):
-                V(res, key, "update_returns", {"exception": "UpdateTimeout", "limit_s": H.UPDATE_LIMIT_S}, hist="/".join(st.hist + [H.letter_name(lt)]))
+                # C01 says nothing about run time: a slow update is not a violation, but
+                # the exploration of this case ends here (reported in the notes)
+                res["notes"]["updates_over_cpu_limit"] = res["notes"].get("updates_over_cpu_limit", 0) + 1
                 raise H.StopExploration()
             # a failed update must still not have altered what is stored (append-only)
             if H.snapshot_hashes(child.m) != st.aux["hashes"]:
@@ -163,7 +172,8 @@ def run_case(key):
         return child
 
     if key["part"] == "hist":
-        ns, nt = H.bfs(root, LETTERS, key["depth"], step)
+        letters = LETTERS if n < 1000 else [("ss_xz", 0.1), ("gen", 0.5)]
+        ns, nt = H.bfs(root, letters, key["depth"], step)
         res["states"], res["trans"] = ns, nt
         if H.LAST["budget_stop"]:
             res["notes"]["cases_cut_at_cpu_budget"] = res["notes"].get("cases_cut_at_cpu_budget", 0) + 1
